@@ -99,9 +99,26 @@ func runC03(b *mon.B) {
 	caseNo := 0
 	nConn := b.N(40, 700)
 	perConn := 12
+	// the secrets the provider hands to the server are cut from ONE buffer, one after the other, with
+	// the rest of the buffer as spare capacity (a keyring loaded in one piece); the harness keeps its
+	// own copies for the reference computations and re-compares the buffer at the end
+	var keyring []byte
+	var ringAt []int
 	for cno := 0; cno < nConn; cno++ {
-		secret := c03Secret(r, cno+b.Index)
-		conn := srv.dial(cno+1, secret)
+		ringAt = append(ringAt, len(keyring))
+		keyring = append(keyring, c03Secret(r.Fork(uint64(7000+cno)), cno+b.Index)...)
+	}
+	ringAt = append(ringAt, len(keyring))
+	keyringCopy := append([]byte{}, keyring...)
+	defer func() {
+		if !bytes.Equal(keyring, keyringCopy) {
+			off := firstDiff(keyring, keyringCopy)
+			b.Violate(-1, "C03/secret-buffer-modified", fmt.Sprintf("the buffer the connection secrets were cut from was written to (first difference at offset %d of %d): obfuscating a packet must not touch the key material", off, len(keyring)), nil)
+		}
+	}()
+	for cno := 0; cno < nConn; cno++ {
+		secret := keyringCopy[ringAt[cno]:ringAt[cno+1]:ringAt[cno+1]]
+		conn := srv.dial(cno+1, keyring[ringAt[cno]:ringAt[cno+1]])
 		for k := 0; k < perConn; k++ {
 			caseNo++
 			sid := c03Sessions[r.Intn(len(c03Sessions))]
